@@ -72,7 +72,7 @@ Lemma agree_bind {A A' B B'} (P : A -> list N -> A' -> world -> Prop) (P2 : B ->
 Proof.
   intros H K M. destruct r as [a out'|f out'| |]; simpl in *; try exact I.
   - destruct H as [a' [w' [E Q]]]. subst i. simpl. apply K. exact Q.
-  - destruct f; try exact I. intros b' w'' Hi. destruct i as [a' w'| | |]; simpl in Hi; try discriminate.
+  - destruct f; try exact I. intros b' w'' Hi. destruct i as [a' w'| | | |?]; simpl in Hi; try discriminate.
     eapply M; [|exact Hi]. eapply H. reflexivity.
 Qed.
 
@@ -112,7 +112,7 @@ Qed.
 
 Ltac ib H := match type of H with
   | ibind ?r _ = IOk _ _ => let v := fresh "v" in let w := fresh "w" in let E := fresh "E" in
-      destruct r as [v w| | |] eqn:E; simpl in H; try discriminate
+      destruct r as [v w| | | |?] eqn:E; simpl in H; try discriminate
   end.
 (* turn "the continuation only extends the assertion log" into the obligation of agree_bind *)
 Ltac decomp H := repeat (first [ progress (cbv beta zeta in H) | ib H | match type of H with
@@ -156,6 +156,61 @@ Proof.
     replace (S (length (en ++ rest))) with (length ((x, (false, v')) :: b ++ rest)) by (simpl; rewrite !app_length, L; reflexivity).
     apply truncate_app.
 Qed.
+
+(* ---- an expression without calls leaves the world as it is (it cannot print, assert or touch the stack) *)
+Section NoCall.
+Variable fns : list fn.
+
+Lemma nocall_args ev : (forall e w v w', expr_nocall e = true -> ev e w = IOk v w' -> w' = w) ->
+  forall l w vs w', (fix go (l : list expr) : bool := match l with [] => true | a :: r => expr_nocall a && go r end) l = true ->
+  iargs_with ev l w = IOk vs w' -> w' = w.
+Proof.
+  intros Hev. induction l as [|a r IH]; intros w vs w' Hl H; cbn [iargs_with] in H.
+  - inversion H. reflexivity.
+  - apply andb_true_iff in Hl. destruct Hl as [Ha Hr].
+    destruct (ev a w) as [v w1| | | |?] eqn:E1; cbn [ibind] in H; try discriminate.
+    destruct (iargs_with ev r w1) as [vs1 w2| | | |?] eqn:E2; cbn [ibind] in H; try discriminate.
+    inversion H; subst. rewrite (IH _ _ _ Hr E2). eapply Hev; eassumption.
+Qed.
+
+Lemma nocall_pure : forall fuel e w v w', expr_nocall e = true -> ieval fns fuel e w = IOk v w' -> w' = w.
+Proof.
+  induction fuel as [|fuel IH]; intros e w v w' NC H; [discriminate H|].
+  assert (PURE : forall e0 wa va wb, expr_nocall e0 = true -> ieval fns fuel e0 wa = IOk va wb -> wb = wa)
+    by (intros; eapply IH; eassumption).
+  Ltac pure_tac PURE :=
+    repeat match goal with
+           | E : ieval _ _ ?e0 ?wa = IOk _ ?wb |- _ => apply PURE in E; [|assumption]
+           end; congruence.
+  destruct e; cbn [ieval] in H; cbn [expr_nocall] in NC.
+  - inversion H; reflexivity.
+  - inversion H; reflexivity.
+  - inversion H; reflexivity.
+  - destruct (ilookup x (w_stk w)) as [[m u]|]; inversion H; reflexivity.
+  - ib H. inversion H; subst. pure_tac PURE.
+  - apply andb_true_iff in NC. destruct NC as [N1 N2]. destruct o.
+    all: try (ib H; ib H; first [apply of_ibin_ok in H; destruct H as [H _] | inversion H; subst]; pure_tac PURE).
+    + ib H. destruct (truthy v0).
+      * ib H. inversion H; subst. pure_tac PURE.
+      * inversion H; subst. pure_tac PURE.
+    + ib H. destruct (truthy v0).
+      * inversion H; subst. pure_tac PURE.
+      * ib H. inversion H; subst. pure_tac PURE.
+  - discriminate NC.
+  - apply andb_true_iff in NC. destruct NC as [NC N3]. apply andb_true_iff in NC. destruct NC as [N1 N2].
+    ib H. destruct (truthy v0); pure_tac PURE.
+  - destruct es as [|a r]; [inversion H; reflexivity|].
+    pose proof NC as NC'. apply andb_true_iff in NC'. destruct NC' as [Na _].
+    ib H. ib H. unfold i_arr in H. destruct (ints_of v1); inversion H; subst.
+    apply (nocall_args (ieval fns fuel) PURE (a :: r) _ _ _ NC) in E0. pure_tac PURE.
+  - apply andb_true_iff in NC. destruct NC as [N1 N2]. ib H. ib H.
+    assert (w' = w1).
+    { unfold i_at in H. destruct v1; try (inversion H; reflexivity). destruct v0; try (inversion H; reflexivity).
+      destruct (arr_get l z); inversion H; reflexivity. }
+    pure_tac PURE.
+  - ib H. inversion H; subst. pure_tac PURE.
+Qed.
+End NoCall.
 
 Section Agree.
 Variable fns : list fn.
@@ -309,16 +364,16 @@ Proof.
                | mono_tac ]).
         -- (* and *)
            eapply agree_bind with (P := Pe S asr); [eapply IHe; eassumption| |mono_tac].
-           intros va out1 va' w1 [-> [l1 [Hl1 ->]]]. destruct va as [z|[|]| |s0]; try exact I; simpl.
+           intros va out1 va' w1 [-> [l1 [Hl1 ->]]]. destruct va as [z|[|]| |s0|l0]; try exact I; simpl.
            ++ eapply agree_Pe_ext; [exact Hl1|]. eapply agree_bind with (P := Pe S (asr ++ l1)); [eapply IHe; eassumption| |mono_tac].
-              intros vb out2 vb' w2 [-> [l2 [Hl2 ->]]]. destruct vb as [z|b'| |s0]; try exact I. simpl. apply agree_ok_Pe. exact Hl2.
+              intros vb out2 vb' w2 [-> [l2 [Hl2 ->]]]. destruct vb as [z|b'| |s0|l0]; try exact I. simpl. apply agree_ok_Pe. exact Hl2.
            ++ apply agree_ok_Pe. exact Hl1.
         -- (* or *)
            eapply agree_bind with (P := Pe S asr); [eapply IHe; eassumption| |mono_tac].
-           intros va out1 va' w1 [-> [l1 [Hl1 ->]]]. destruct va as [z|[|]| |s0]; try exact I; simpl.
+           intros va out1 va' w1 [-> [l1 [Hl1 ->]]]. destruct va as [z|[|]| |s0|l0]; try exact I; simpl.
            ++ apply agree_ok_Pe. exact Hl1.
            ++ eapply agree_Pe_ext; [exact Hl1|]. eapply agree_bind with (P := Pe S (asr ++ l1)); [eapply IHe; eassumption| |mono_tac].
-              intros vb out2 vb' w2 [-> [l2 [Hl2 ->]]]. destruct vb as [z|b'| |s0]; try exact I. simpl. apply agree_ok_Pe. exact Hl2.
+              intros vb out2 vb' w2 [-> [l2 [Hl2 ->]]]. destruct vb as [z|b'| |s0|l0]; try exact I. simpl. apply agree_ok_Pe. exact Hl2.
       * (* call *)
         pose proof (plain_call_forall _ _ PL) as PA.
         eapply agree_bind with (P := Pe S asr).
@@ -357,8 +412,63 @@ Proof.
       * (* cond *)
         simpl in PL. apply andb_true_iff in PL. destruct PL as [PL PL3]. apply andb_true_iff in PL. destruct PL as [PL1 PL2].
         eapply agree_bind with (P := Pe S asr); [eapply IHe; eassumption| |mono_tac].
-        intros vc out1 vc' w1 [-> [l1 [Hl1 ->]]]. destruct vc as [z|[|]| |s0]; try exact I; simpl;
+        intros vc out1 vc' w1 [-> [l1 [Hl1 ->]]]. destruct vc as [z|[|]| |s0|l0]; try exact I; simpl;
           (eapply agree_Pe_ext; [exact Hl1|]; eapply IHe; eassumption).
+      * (* array literal: the evaluator evaluates the first element twice; it contains no call, so nothing shows *)
+        destruct es as [|a r]; [apply agree_ok_Pe0|].
+        simpl in PL. apply andb_true_iff in PL. destruct PL as [NC PL]. apply andb_true_iff in PL. destruct PL as [PLa PLr].
+        assert (PA : Forall (fun a0 => expr_plain a0 = true) (a :: r)).
+        { constructor; [exact PLa|]. clear - PLr. induction r as [|b r IH]; [constructor|].
+          apply andb_true_iff in PLr. destruct PLr as [H1 H2]. constructor; [exact H1|apply IH; exact H2]. }
+        assert (ARGS : forall l out asr, Forall (fun a0 => expr_plain a0 = true) l ->
+                  agree_with (Pe S asr)
+                    ((fix eval_elems (l : list expr) (out0 : list N) : res (list value) :=
+                        match l with
+                        | [] => Ok [] out0
+                        | a :: r => bind (eval_expr fns fuel genv en a out0) (fun v out1 =>
+                                    bind (eval_elems r out1) (fun vs out2 => Ok (v :: vs) out2))
+                        end) l out)
+                    (iargs_with (ieval fns fuel) l (mkw S out asr))).
+        { induction l as [|a0 r0 IHr]; intros out0 asr0 PA0.
+          - apply agree_ok_Pe0.
+          - inversion PA0; subst. cbn [iargs_with]. eapply agree_bind with (P := Pe S asr0); [eapply IHe; eassumption| |mono_tac].
+            intros v out1 v' w1 [-> [l1 [Hl1 ->]]]. eapply agree_Pe_ext; [exact Hl1|].
+            eapply agree_bind with (P := Pe S (asr0 ++ l1)); [apply IHr; assumption| |mono_tac].
+            intros vs out2 vs' w2 [-> [l2 [Hl2 ->]]]. apply agree_ok_Pe. exact Hl2. }
+        pose proof (IHe genv base en outer a out asr G LO PLa) as HA. fold S in HA.
+        destruct (ieval fns fuel a (mkw S out asr)) as [v0 w0| | | |w0] eqn:E0; cbn [ibind].
+        -- (* the extra evaluation changes nothing *)
+           rewrite (nocall_pure fns _ _ _ _ _ NC E0).
+           eapply agree_bind with (P := Pe S asr); [exact (ARGS (a :: r) out asr PA)| |].
+           ++ intros vs out1 vs' w1 [-> [l1 [Hl1 ->]]]. unfold i_arr. destruct (ints_of vs); [apply agree_ok_Pe; exact Hl1|exact I].
+           ++ intros a' w' b' w'' F K. unfold i_arr in K. destruct (ints_of a'); inversion K; subst; exact F.
+        -- destruct (eval_expr fns fuel genv en a out) as [va o1|f o1| |]; cbn [bind];
+             [destruct HA as (? & ? & HH & _); discriminate HH|destruct f; try exact I; intros ? ? HH; discriminate HH|exact I|exact I].
+        -- destruct (eval_expr fns fuel genv en a out) as [va o1|f o1| |]; cbn [bind];
+             [destruct HA as (? & ? & HH & _); discriminate HH|destruct f; try exact I; intros ? ? HH; discriminate HH|exact I|exact I].
+        -- destruct (eval_expr fns fuel genv en a out) as [va o1|f o1| |]; cbn [bind];
+             [destruct HA as (? & ? & HH & _); discriminate HH|destruct f; try exact I; intros ? ? HH; discriminate HH|exact I|exact I].
+        -- destruct (eval_expr fns fuel genv en a out) as [va o1|f o1| |]; cbn [bind];
+             [destruct HA as (? & ? & HH & _); discriminate HH|destruct f; try exact I; intros ? ? HH; discriminate HH|exact I|exact I].
+      * (* at *)
+        simpl in PL. apply andb_true_iff in PL. destruct PL as [PL1 PL2].
+        eapply agree_bind with (P := Pe S asr); [eapply IHe; eassumption| |].
+        -- intros va out1 va' w1 [-> [l1 [Hl1 ->]]]. eapply agree_Pe_ext; [exact Hl1|].
+           eapply agree_bind with (P := Pe S (asr ++ l1)); [eapply IHe; eassumption| |].
+           ++ intros vi out2 vi' w2 [-> [l2 [Hl2 ->]]].
+              destruct va as [z|b| |s0|l0]; try exact I. destruct vi as [k|b| |s0|l0']; try exact I.
+              unfold i_at. destruct (arr_get l0 k); [apply agree_ok_Pe; exact Hl2|exact I].
+           ++ intros a' w' b' w'' F K. assert (w'' = w').
+              { unfold i_at in K. destruct a'; try (inversion K; reflexivity). destruct va; try (inversion K; reflexivity).
+                destruct (arr_get l z); inversion K; reflexivity. }
+              subst w''. exact F.
+        -- intros a' w' b' w'' F K. cbv beta in K. ib K. assert (w'' = w).
+           { unfold i_at in K. destruct v; try (inversion K; reflexivity). destruct a'; try (inversion K; reflexivity).
+             destruct (arr_get l z); inversion K; reflexivity. }
+           subst w''. eapply ext_failed; [|exact F]. eapply ieval_mono; exact E.
+      * (* array_length *)
+        simpl in PL. eapply agree_bind with (P := Pe S asr); [eapply IHe; eassumption| |mono_tac].
+        intros va out1 va' w1 [-> [l1 [Hl1 ->]]]. destruct va as [z|b| |s0|l0]; try exact I. cbn [i_len]. apply agree_ok_Pe. exact Hl1.
     + (* ------------------------------------------------------------ statements *)
       red. intros genv base en outer s out asr G LO BK SP.
       set (rest := outer ++ genv ++ base) in *.
@@ -395,7 +505,7 @@ Proof.
         apply andb_true_iff in BK. destruct BK as [BK1 BK2].
         apply andb_true_iff in SP. destruct SP as [SP SP2]. apply andb_true_iff in SP. destruct SP as [SP0 SP1].
         eapply agree_bind with (P := Pe (en ++ rest) asr); [exact (IHe genv base en outer c out asr G LO SP0)| |mono_tac].
-        intros vc out1 vc' w1 [-> [l1 [Hl1 ->]]]. destruct vc as [z|b| |s0]; try exact I. cbn [truthy w_stk mkw].
+        intros vc out1 vc' w1 [-> [l1 [Hl1 ->]]]. destruct vc as [z|b| |s0|l0]; try exact I. cbn [truthy w_stk mkw].
         eapply Ps_ext_agree; [exact Hl1|].
         assert (BR : binders_ok gn (if b then s1 else s2) = true) by (destruct b; assumption).
         assert (SR : stmt_plain (if b then s1 else s2) = true) by (destruct b; assumption).
@@ -408,7 +518,7 @@ Proof.
       * (* while *)
         apply andb_true_iff in SP. destruct SP as [SP0 SP1].
         eapply agree_bind with (P := Pe (en ++ rest) asr); [exact (IHe genv base en outer c out asr G LO SP0)| |mono_tac].
-        intros vc out1 vc' w1 [-> [l1 [Hl1 ->]]]. destruct vc as [z|b| |s0]; try exact I. cbn [truthy w_stk mkw].
+        intros vc out1 vc' w1 [-> [l1 [Hl1 ->]]]. destruct vc as [z|b| |s0|l0]; try exact I. cbn [truthy w_stk mkw].
         destruct b.
         -- eapply Ps_ext_agree; [exact Hl1|].
            eapply agree_bind with (P := Ps rest (asr ++ l1) en); [exact (IHs genv base en outer s out1 (asr ++ l1) G LO BK SP1)| |mono_tac].
@@ -436,7 +546,7 @@ Proof.
         intros vlo out1 vlo' w1 [-> [l1 [Hl1 ->]]]. eapply Ps_ext_agree; [exact Hl1|].
         eapply agree_bind with (P := Pe (en ++ rest) (asr ++ l1)); [exact (IHe genv base en outer hi out1 (asr ++ l1) G LO SP1)| |mono_tac].
         intros vhi out2 vhi' w2 [-> [l2 [Hl2 ->]]]. eapply Ps_ext_agree; [exact Hl2|].
-        destruct vlo as [a| | |]; try exact I. destruct vhi as [b| | |]; try exact I.
+        destruct vlo as [a| | | |]; try exact I. destruct vhi as [b| | | |]; try exact I.
         eapply agree_with_impl; [|exact (IHf genv base x s en outer (VInt a) a b out2 ((asr ++ l1) ++ l2) G BX LO BK SP2)].
         intros r out' c' w' [Hc [l3 [Hl3 [Hw Hs]]]]. split; [exact Hc|]. exists l3. repeat split; auto.
         -- exists []. exact Hs.
@@ -455,7 +565,7 @@ Proof.
         apply (agree_ok_Ps rest asr en CNormal en _ l1 Hl1); [apply same_shape_pre|exact LN].
       * (* assert *)
         eapply agree_bind with (P := Pe (en ++ rest) asr); [exact (IHe genv base en outer e out asr G LO SP)| |mono_tac].
-        intros v out1 v' w1 [-> [l1 [Hl1 ->]]]. destruct v as [z|[|]| |s0]; try exact I; cbn [truthy w_stk w_out w_asr mkw].
+        intros v out1 v' w1 [-> [l1 [Hl1 ->]]]. destruct v as [z|[|]| |s0|l0]; try exact I; cbn [truthy w_stk w_out w_asr mkw].
         -- rewrite <- app_assoc. apply (agree_ok_Ps rest asr en CNormal en out1 (l1 ++ [true])).
            ++ apply alltrue_app; [exact Hl1|reflexivity].
            ++ apply same_shape_pre.
